@@ -1,7 +1,7 @@
 """C02 - exact algorithms return a minimum-weight cycle basis and its weight."""
 from lib import engine
 from lib.core import tier
-from units import k12_scalar
+from units import k12_scalar, k10_phase
 from . import common
 
 LEVEL = "other"
@@ -10,7 +10,12 @@ EXPLANATION = (
     "de Pina's exchange argument: if every phase returns a MINIMUM-weight cycle among those odd w.r.t. the "
     "witness (contracts K9/K10/K11) and the invariant of C01 holds, the basis is minimum.  PROVED by CBMC (loop-free, "
     "full domain): closed_plus is + below infinity, saturates at infinity and never overflows there; the scalar "
-    "prefix (distance, edge count) of the lexicographic label order decides strictly.  BOUNDED stand-ins (not "
+    "prefix (distance, edge count) of the lexicographic label order decides strictly; and, MODULARLY against the contract K9 "
+    "of bidirectional_signed_dijkstra (calls replaced by the contract, loop contracts, ghost tables of true answers): the "
+    "whole odd-cycle phase of mcb_sva_signed - all-vertices branch and hidden-edge-chain branch - ends with a candidate no "
+    "heavier than ANY search it is responsible for, passes the current best as limit, and at every call owes the callee "
+    "exactly the chain suffix {se..} as hidden set with se's endpoints (K10, unbounded in n and in the number of signed "
+    "edges up to the 63-bit mask).  BOUNDED stand-ins (not "
     "proof): K9 bidirectional_signed_dijkstra against a two-level-graph shortest-path oracle for every witness "
     "set S, every start vertex, every hidden-chain prefix and limits at/around the optimum; K10 "
     "OddCycleFinder::find against the minimum over all enumerated odd cycles; K16 whole functions: returned "
@@ -18,7 +23,7 @@ EXPLANATION = (
 
 
 def run(rep):
-    engine.run_units(rep, k12_scalar.units(tier()))
+    engine.run_units(rep, k12_scalar.units(tier()) + k10_phase.units(tier()))
     common.native_filtered(
         rep, "e3_exact", common.C02_KINDS,
         functions={"mcb_sva_signed": "bounded(E3 set)", "mcb_sva_fvs_trees": "bounded(E3 set)",
